@@ -12,4 +12,5 @@ INVARIANT Argument
 INVARIANT Anchors
 INVARIANT Polar
 INVARIANT MB05
+INVARIANT RimConstants
 CHECK_DEADLOCK FALSE
